@@ -20,6 +20,7 @@ class _State(object):
     busy = 0  # >0 while oracle code runs: wrapped calls pass straight through
     depth = 0  # nesting depth of monitored calls
     targets = []  # stack of objects legitimately mutated in place right now
+    apis = []  # stack of the monitored functions that are executing right now (outermost first)
     live = None  # id -> weakref of user-visible TT objects
     failpoint_svd = False  # M8: raise LinAlgError before default-driver SVD
     failpoint_hits = 0
@@ -184,10 +185,12 @@ def install(owner, name, contract, replace_everywhere=False):
         if tgt is not None:
             S.targets.append(tgt)
         S.depth += 1
+        S.apis.append(api)
         try:
             res = orig(*args, **kwargs)
         except BaseException as e:
             S.depth -= 1
+            S.apis.pop()
             if tgt is not None:
                 S.targets.pop()
             S.busy += 1
@@ -201,6 +204,7 @@ def install(owner, name, contract, replace_everywhere=False):
                 S.busy -= 1
             raise
         S.depth -= 1
+        S.apis.pop()
         if tgt is not None:
             S.targets.pop()
         S.busy += 1
